@@ -486,15 +486,16 @@ impl THistory {
                 topt(m.map(|m| b(&m)))
             }
             225 => {
-                let e = rs.get_event();
-                let tr = topt(e.as_ref().map(|e| match e {
-                    ServerEvent::ClientConnected { client_id } => l(vec![n(0u8), n(*client_id)]),
-                    ServerEvent::ClientDisconnected { client_id, reason } => l(vec![n(1u8), n(*client_id), reason_tree(*reason)]),
-                }));
-                if let Some(e) = e {
+                // every pending event; the disconnections one update produces for several clients come out of a hash map,
+                // so each maximal run of consecutive disconnect events is listed by client id
+                let mut evs: Vec<ServerEvent> = vec![];
+                while let Some(e) = rs.get_event() {
+                    evs.push(e);
+                }
+                for e in &evs {
                     let (id, is_conn) = match e {
-                        ServerEvent::ClientConnected { client_id } => (client_id, true),
-                        ServerEvent::ClientDisconnected { client_id, .. } => (client_id, false),
+                        ServerEvent::ClientConnected { client_id } => (*client_id, true),
+                        ServerEvent::ClientDisconnected { client_id, .. } => (*client_id, false),
                     };
                     let cur = *self.ev_state.get(&id).unwrap_or(&false);
                     if is_conn == cur {
@@ -507,7 +508,21 @@ impl THistory {
                         self.feat("event_disconnected");
                     }
                 }
-                tr
+                let mut out: Vec<Tree> = vec![];
+                let mut run: Vec<(u64, Tree)> = vec![];
+                for e in &evs {
+                    match e {
+                        ServerEvent::ClientConnected { client_id } => {
+                            run.sort_by_key(|x| x.0);
+                            out.extend(run.drain(..).map(|x| x.1));
+                            out.push(l(vec![n(0u8), n(*client_id)]));
+                        }
+                        ServerEvent::ClientDisconnected { client_id, reason } => run.push((*client_id, l(vec![n(1u8), n(*client_id), reason_tree(*reason)]))),
+                    }
+                }
+                run.sort_by_key(|x| x.0);
+                out.extend(run.drain(..).map(|x| x.1));
+                l(out)
             }
             226 => {
                 rs.disconnect(u(1).unwrap_or(0));
